@@ -53,6 +53,7 @@ type Server struct {
 	healthSeenAt   uint64          // index of the last health response sent
 	kvSeenAt       map[string]uint64
 	kvFail         bool            // every KV request fails with 500 (fault injection)
+	agentRefuses   bool            // service registrations are refused with 403 (ACL)
 	kvWake         uint64
 }
 
@@ -130,6 +131,13 @@ func (s *Server) Rewind() {
 	s.kvWake++
 	s.mu.Unlock()
 	s.cond.Broadcast()
+}
+
+// SetAgentRefuses makes the agent refuse service registrations (403), as an ACL would.
+func (s *Server) SetAgentRefuses(v bool) {
+	s.mu.Lock()
+	s.agentRefuses = v
+	s.mu.Unlock()
 }
 
 // Touch bumps the health index without changing anything (watchers wake up and re-read).
@@ -211,6 +219,15 @@ func (s *Server) handle(w http.ResponseWriter, r *http.Request) {
 		s.kvGet(w, r, strings.TrimPrefix(p, "/v1/kv/"))
 	case p == "/v1/agent/services":
 		w.Write([]byte("{}"))
+	case strings.HasPrefix(p, "/v1/agent/service/register"):
+		s.mu.Lock()
+		refuse := s.agentRefuses
+		s.mu.Unlock()
+		if refuse {
+			http.Error(w, "Permission denied", 403)
+			return
+		}
+		w.WriteHeader(200)
 	case strings.HasPrefix(p, "/v1/agent/"):
 		w.WriteHeader(200)
 	default:
